@@ -326,7 +326,9 @@ pub struct World {
     pub sent: Vec<SentRec>,
     pub resps: Vec<RespRec>,
     pending: Vec<usize>,
-    ready: Option<(Vec<u8>, Option<SocketAddr>)>,
+    /// The datagram selected by `is_readable`, with the delivery record that is logged once the
+    /// tracer actually reads it.
+    ready: Option<(Vec<u8>, Option<SocketAddr>, Option<DeliveryRec>)>,
     pub deliveries: Vec<DeliveryRec>,
     pub attempts: Vec<Attempt>,
     pub publishes: Vec<PublishRec>,
@@ -745,15 +747,18 @@ impl World {
         } else {
             None
         };
-        self.ready = Some((r.bytes.clone(), peer));
-        self.deliveries.push(DeliveryRec {
-            resp,
-            for_sent: r.for_sent,
-            time_ns: vclock::get(),
-            round: self.round,
-            genuine: r.genuine && junk.is_none(),
-            junk,
-        });
+        self.ready = Some((
+            r.bytes.clone(),
+            peer,
+            Some(DeliveryRec {
+                resp,
+                for_sent: r.for_sent,
+                time_ns: vclock::get(),
+                round: self.round,
+                genuine: r.genuine && junk.is_none(),
+                junk,
+            }),
+        ));
     }
 
     /// An inert datagram: an ICMP Echo *Request*, which the receive path drops at the lowest level.
@@ -937,8 +942,8 @@ impl World {
 
     fn is_readable(&mut self, timeout: Duration) -> bool {
         self.op_count += 1;
-        if let Some(d) = self.inject.pop_front() {
-            self.ready = Some(d);
+        if let Some((b, p)) = self.inject.pop_front() {
+            self.ready = Some((b, p, None));
             return true;
         }
         let p = self.pending.len();
@@ -1270,9 +1275,10 @@ impl Socket for SimSocket {
                 return Err(IoError::Other(io_err(e), IoOperation::RecvFrom));
             }
             match w.ready.take() {
-                Some((bytes, peer)) => {
+                Some((bytes, peer, rec)) => {
                     let n = bytes.len().min(buf.len());
                     buf[..n].copy_from_slice(&bytes[..n]);
+                    w.deliveries.extend(rec);
                     Ok((n, peer))
                 }
                 None => Err(IoError::Other(io_err(EAGAIN), IoOperation::RecvFrom)),
@@ -1287,9 +1293,10 @@ impl Socket for SimSocket {
                 return Err(IoError::Other(io_err(e), IoOperation::Read));
             }
             match w.ready.take() {
-                Some((bytes, _)) => {
+                Some((bytes, _, rec)) => {
                     let n = bytes.len().min(buf.len());
                     buf[..n].copy_from_slice(&bytes[..n]);
+                    w.deliveries.extend(rec);
                     Ok(n)
                 }
                 None => Err(IoError::Other(io_err(EAGAIN), IoOperation::Read)),
